@@ -144,7 +144,8 @@ func dummyMultipartFile(genpkg string, root *expr.RootExpr, svc *expr.HTTPServic
 	for _, svc := range root.Services {
 		s := HTTPServices.Get(svc.Name)
 		if s == nil {
-			panic("unknown http service, " + svc.Name) // bug
+			// service without HTTP transport
+			continue
 		}
 		if s.Service == nil {
 			panic("unknown service, " + svc.Name) // bug
